@@ -90,6 +90,60 @@ func init() {
 			pk, msg, sig := args[1].([]value), args[2].([]value), args[3].([]value)
 			return w.verifySig(pk, msg, sig)
 		}
+		// batch verification: the real BatchVerifier struct, entries counted in field 0 and
+		// "some signature does not verify" accumulated in field 1 (anyInvalid); VerifyBatchOnly
+		// = non-empty batch and every entry verifies (the real one is probabilistic with
+		// negligible error and rejects cofactor-less options, which oasis-core never sets)
+		const BV = "github.com/oasisprotocol/curve25519-voi/primitives/ed25519"
+		newBatch := func(w *Worker, fr *frame, f *ssa.Function, args []value) value {
+			p := w.eng.prog.ImportedPackage(BV)
+			cell := new(value)
+			*cell = zero(p.Type("BatchVerifier").Type())
+			return cell
+		}
+		in[BV+".NewBatchVerifierWithCapacity"] = newBatch
+		in[BV+".NewBatchVerifier"] = newBatch
+		batchAdd := func(w *Worker, bvp value, pk, msg, sig []value) value {
+			cell := bvp.(*value)
+			s := append(structure{}, (*cell).(structure)...)
+			ents, _ := s[0].([]value)
+			s[0] = append(append([]value{}, ents...), uint64(0))
+			bad := w.not(w.verifySig(pk, msg, sig))
+			switch old := s[1].(type) {
+			case bool:
+				if !old {
+					s[1] = bad
+				}
+			case *Term:
+				switch b := bad.(type) {
+				case bool:
+					if b {
+						s[1] = true
+					}
+				case *Term:
+					s[1] = simp(w.tc.Or(old, b))
+				}
+			}
+			w.set(cell, s)
+			return nil
+		}
+		in["(*"+BV+"/extra/cache.Verifier).AddWithOptions"] = func(w *Worker, fr *frame, f *ssa.Function, args []value) value {
+			return batchAdd(w, args[1], args[2].([]value), args[3].([]value), args[4].([]value))
+		}
+		in["(*"+BV+".BatchVerifier).AddWithOptions"] = func(w *Worker, fr *frame, f *ssa.Function, args []value) value {
+			return batchAdd(w, args[0], args[1].([]value), args[2].([]value), args[3].([]value))
+		}
+		in["(*"+BV+".BatchVerifier).Add"] = func(w *Worker, fr *frame, f *ssa.Function, args []value) value {
+			return batchAdd(w, args[0], args[1].([]value), args[2].([]value), args[3].([]value))
+		}
+		in["(*"+BV+".BatchVerifier).VerifyBatchOnly"] = func(w *Worker, fr *frame, f *ssa.Function, args []value) value {
+			s := (*(args[0].(*value))).(structure)
+			ents, _ := s[0].([]value)
+			if len(ents) == 0 {
+				return false
+			}
+			return w.not(s[1])
+		}
 		in["github.com/oasisprotocol/curve25519-voi/primitives/ed25519.VerifyWithOptions"] = func(w *Worker, fr *frame, f *ssa.Function, args []value) value {
 			return w.verifySig(args[0].([]value), args[1].([]value), args[2].([]value))
 		}
